@@ -233,7 +233,7 @@ class SchemaBuilder:
             if f.defaults and d.p(f.default_prob):
                 try:
                     dflt = self.json_default(ftype, 0)
-                    if ftype["k"] == "union" and not f.ambiguous_union_defaults and union_default_ambiguous(ftype, self.table, dflt):
+                    if not f.ambiguous_union_defaults and union_default_ambiguous(ftype, self.table, dflt):
                         raise _NoDefault()
                     fld["default"] = dflt
                 except _NoDefault:
@@ -294,11 +294,33 @@ class _NoDefault(Exception):
     pass
 
 
-def union_default_ambiguous(union_node, table, dj):
-    """The JSON default, taken as a Python datum, also conforms to a branch other than the first
-    (fastavro then may encode the default of an omitted field under that other branch)."""
+def union_default_ambiguous(node, table, dj, depth=0):
+    """Somewhere along the JSON default a union is met whose default part, taken as a Python datum, also
+    conforms to a branch other than the first (fastavro then may encode the default of an omitted field
+    under that other branch)."""
+    if depth > 12:
+        return True
     try:
-        return any(B.conforms(b, table, dj) for b in union_node["branches"][1:])
+        n = table[node["name"]] if node["k"] == "ref" else node
+        k = n["k"]
+        if k == "union":
+            if any(B.conforms(b, table, dj) for b in n["branches"][1:]):
+                return True
+            return union_default_ambiguous(n["branches"][0], table, dj, depth + 1)
+        if k == "array" and isinstance(dj, list):
+            return any(union_default_ambiguous(n["items"], table, x, depth + 1) for x in dj)
+        if k == "map" and isinstance(dj, dict):
+            return any(union_default_ambiguous(n["values"], table, x, depth + 1) for x in dj.values())
+        if k == "record" and isinstance(dj, dict):
+            for f in n["fields"]:
+                if f["name"] in dj:
+                    if union_default_ambiguous(f["type"], table, dj[f["name"]], depth + 1):
+                        return True
+                elif "default" in f:
+                    if union_default_ambiguous(f["type"], table, f["default"], depth + 1):
+                        return True
+            return False
+        return False
     except Exception:
         return True
 
@@ -315,7 +337,7 @@ def schema_has_ambiguous_union_default(node, table, seen=None):
         seen.add(node["name"])
         for f in node["fields"]:
             t = f["type"]
-            if t["k"] == "union" and "default" in f and union_default_ambiguous(t, table, f["default"]):
+            if "default" in f and union_default_ambiguous(t, table, f["default"]):
                 return True
             if schema_has_ambiguous_union_default(t, table, seen):
                 return True
